@@ -86,12 +86,23 @@ def impl_ml(args):
     r = impl.guarded(f)
     return {'outcome': r['outcome'], 'value': r['value'], 'exc': r.get('exc')}
 
+def pmap_retry(ctx, fn, items):
+    """a time-out of one of these small pure functions is a load artefact of the machine, not an outcome:
+    the item is run again, alone, in this process"""
+    items = list(items)
+    res = ctx.pmap(fn, items)
+    for i, r in enumerate(res):
+        if isinstance(r, dict) and r.get('outcome') == 'timeout':
+            ctx.count('impl_timeout_retried')
+            res[i] = fn(items[i])
+    return res
+
 # ---- comparison ------------------------------------------------------------
 
 def scan(ctx, srcs):
     if not ctx.model_ok:
         return
-    res = ctx.pmap(impl_scan, srcs)
+    res = pmap_retry(ctx, impl_scan, srcs)
     ans = model.run_batch([('SCAN', 'sc%d' % i, [proto.enc_str(s)]) for i, s in enumerate(srcs)])
     for i, (s, r) in enumerate(zip(srcs, res)):
         ctx.corr['cases'] += 1
@@ -110,7 +121,7 @@ def scan(ctx, srcs):
 def lines(ctx, toklists):
     if not ctx.model_ok:
         return
-    res = ctx.pmap(impl_lines, toklists)
+    res = pmap_retry(ctx, impl_lines, toklists)
     ans = model.run_batch([('LINES', 'ln%d' % i, proto.enc_toks(t)) for i, t in enumerate(toklists)])
     for i, (t, r) in enumerate(zip(toklists, res)):
         ctx.corr['cases'] += 1
@@ -125,7 +136,7 @@ def lines(ctx, toklists):
 def txtpos(ctx, toklists):
     if not ctx.model_ok:
         return
-    res = ctx.pmap(impl_txtpos, toklists)
+    res = pmap_retry(ctx, impl_txtpos, toklists)
     ans = model.run_batch([('TXTPOS', 'tp%d' % i, proto.enc_toks(t)) for i, t in enumerate(toklists)])
     for i, (t, r) in enumerate(zip(toklists, res)):
         ctx.corr['cases'] += 1
@@ -139,7 +150,7 @@ def txtpos(ctx, toklists):
 def latexerr(ctx, cases):
     if not ctx.model_ok:
         return
-    res = ctx.pmap(impl_latexerr, cases)
+    res = pmap_retry(ctx, impl_latexerr, cases)
     ans = model.run_batch([('LATEXERR', 'le%d' % i, [proto.enc_str(c[0]), str(c[1]), proto.enc_str(c[2]), proto.enc_bool(c[3])])
                            for i, c in enumerate(cases)])
     for i, (c, r) in enumerate(zip(cases, res)):
@@ -155,7 +166,7 @@ def ml(ctx, cases):
     """cases: (toks, main, thresh, lc) with lc = [(code, [placeholders])]"""
     if not ctx.model_ok:
         return
-    res = ctx.pmap(impl_ml, cases)
+    res = pmap_retry(ctx, impl_ml, cases)
     reqs = []
     for i, (toks, main, thresh, lc) in enumerate(cases):
         f = proto.enc_toks(toks) + [proto.enc_str(main), str(thresh)]
